@@ -82,6 +82,10 @@ def run(lines, out, args):
             def getter(self, e=int(cf[1:])):
                 raise boom(e)
             Ob = type("Ob", (), {"__conform__": property(getter)})
+        elif cf[0] == "Y":
+            # the object is super(C, c): a base class after C carries declarations of its own (so the class has the
+            # specification descriptor); the interface is declared (when `prov`) after C (Ya), on C (Yd) or on c (Yi)
+            Ob = None
         elif cf == "K":
             # the object is a class whose METACLASS is what implements the interface (when `provided`)
             Meta = type("Meta", (type,), {})
@@ -135,7 +139,15 @@ def run(lines, out, args):
                     return val(int(cf[1:]))
                 raise boom(int(cf[1:]), "T" if cf[0] == "T" else cf[0] == "Q")
             Ob = type("Ob", (), {"__conform__": conform})
-        ob = Ob if cf == "U" or cf[0] in "ksm" else Meta("Cold", (), {}) if cf == "K" else Ob()
+        if cf[0] == "Y":
+            from zope.interface import classImplements
+            YB = type("YB", (), {})
+            YC = type("YC", (YB,), {})
+            classImplements(YB, IX2)
+            yc = YC()
+            ob = super(YC, yc)
+        else:
+            ob = Ob if cf == "U" or cf[0] in "ksm" else Meta("Cold", (), {}) if cf == "K" else Ob()
         if cf.startswith("i"):
             ob.__conform__ = conformi
         # the interface (custom __adapt__ through interfacemethod, or the plain one)
@@ -172,6 +184,11 @@ def run(lines, out, args):
             from zope.interface import classImplements, implementedBy
             classImplements(Meta, I)
             implementedBy(ob)           # what adapting an instance of the class does on the way: gives the class its own descriptor
+        elif prov == "1" and cf[0] == "Y":
+            if cf == "Yi":
+                directlyProvides(yc, I)
+            else:
+                classImplements(YB if cf == "Ya" else YC, I)
         elif prov == "1":
             directlyProvides(ob, I)
         # hooks
